@@ -192,12 +192,12 @@ func runC14(job *Job, res *Result) {
 							continue
 						}
 						// stability under every other map iteration order: every identity with a map of
-						// >= 2 entries (every 5th of them in the quick tier), every 11th of the others
+						// >= 2 entries (every 5th of them in the quick tier, every 3rd in the thorough tier), every 11th of the others
 						multi := len(id.ins) >= 2 || len(id.params) >= 2 || len(id.tags) >= 2
 						if multi {
 							nmulti++
 						}
-						if (multi && (thorough || nmulti%5 == 0)) || n%11 == 0 {
+						if (multi && ((thorough && nmulti%3 == 0) || (!thorough && nmulti%5 == 0))) || n%11 == 0 {
 							for v := 1; v < 6; v++ {
 								vs.ForceAll = v
 								if d2 := build(id); d2 != dir {
